@@ -9,7 +9,7 @@ for f in ("patch.diff", "demo.py", "notes.md"):
     shutil.copy(os.path.join(src, f), os.path.join(dst, f))
 summ = {}
 for line in open("/tmp/vs/summary.txt"):
-    if line.startswith(f"{pid}{k} "):
+    if line.startswith(f"{pid}{k} ") and "tests_rc=" in line:
         summ = dict(re.findall(r"(\w+)=(\S+)", line)); summ["tests"] = line.strip().split("tests_rc=")[1]
 notes = open(os.path.join(src, "notes.md")).read()
 meta = {
